@@ -27,7 +27,7 @@ func init() {
 		busy := func() int {
 			return d.rec.Count(func(e Ev) bool {
 				switch e["ev"] {
-				case "BRecvPing", "BSendPong", "BSendPing", "BRecvPong":
+				case "BRecvPing", "BSendPong", "BPongQueued", "BSendPing", "BRecvPong", "Stall":
 					return false
 				}
 				return true
